@@ -26,7 +26,7 @@ struct Fut { void* obj; int type; int lastCall; bool abortReq; };   // type 0 vo
 struct Ctx {
   const RunSpec* spec; int nclients; int phase;   // 0 clients, 1 teardown
   Fut fut[4][3]; CallInfo call[MAXCALL]; int ncalls;
-  int taskIds[4];
+  int taskIds[4]; int lockWaiters;
   struct Target* target;
 };
 static Ctx C;
@@ -90,6 +90,7 @@ static void client(void* a) {
     case O_START: {
       int id; { Host h; id = C.ncalls < MAXCALL ? C.ncalls++ : -1; if (id >= 0) { CallInfo& ci = C.call[id]; ci.kind = (int)(op.a[1] % 4); ci.param = (int)op.a[2]; ci.exec = 0; ci.done = false; ci.client = c; ci.fut = f; ci.futObj = F.obj; ci.futType = F.type; ci.argEchoBad = 0; ci.member = (op.a[3] % 3) == 0 && F.type != 2; } }
       if (id < 0) break;
+      { NoPreempt np; if (!FP::_threadPool && FP::_threadPoolLock) C.lockWaiters++; }
       int prev = F.lastCall;
       char an[32]; snprintf(an, sizeof an, "c%d", id); String arg(an, strlen(an));
       bool member = (op.a[3] % 3) == 0;
@@ -164,7 +165,9 @@ static void generate(RunSpec& s, int tier) {
   uint64_t z = s.seed;
   auto r = [&](uint64_t n) { z += 0x9e3779b97f4a7c15ULL; uint64_t x = z; x = (x ^ (x >> 30)) * 0xbf58476d1ce4e5b9ULL; x = (x ^ (x >> 27)) * 0x94d049bb133111ebULL; x ^= x >> 31; return n ? x % n : x; };
   int nc = 1 + (int)r(4);
-  s.knobs["clients"] = nc; s.knobs["pool_mode"] = r(4) ? 1 : 0; s.knobs["pool_min"] = r(3); s.knobs["pool_max"] = 3 + r(3); static const int qs[] = {1, 2, 4, 8}; s.knobs["pool_queue"] = qs[r(4)]; s.knobs["nproc"] = 1 + r(8);
+  bool firstStartRace = r(6) == 0;      /* three or four clients whose first action is the process's first start(): they race through the lazy pool creation */
+  if (firstStartRace) nc = 3 + (int)r(2);
+  s.knobs["clients"] = nc; s.knobs["pool_mode"] = (r(4) && !firstStartRace) ? 1 : 0; s.knobs["pool_min"] = r(3); s.knobs["pool_max"] = 3 + r(3); static const int qs[] = {1, 2, 4, 8}; s.knobs["pool_queue"] = qs[r(4)]; s.knobs["nproc"] = 1 + r(8);
   static const int memk[] = {3, 5, 7, 9, 255}; static const int synck[] = {0, 1, 2, 4};
   s.knobs["mem_switch_log2"] = memk[r(5)]; s.knobs["sync_switch_log2"] = synck[r(4)];
   static const int sp[] = {0, 0, 3, 15}; s.knobs["spurious_pct"] = sp[r(4)];
@@ -176,6 +179,7 @@ static void generate(RunSpec& s, int tier) {
       uint64_t k = r(100);
       o.code = k < 40 ? O_START : k < 58 ? O_JOIN : k < 68 ? O_CONVERT : k < 76 ? O_ABORT : k < 80 ? O_QUERY : k < (sleepy ? 94u : 84u) ? O_SLEEP : k < 97 ? O_RECREATE : O_WORK;
       if (o.code == O_SLEEP && sleepy) o.a[1] = 3 + r(3);
+      if (firstStartRace && i == 0) o.code = O_START;
       s.plan.push_back(o);
     }
   }
@@ -195,10 +199,18 @@ static Result execute(const RunSpec& s, bool keepLog) {
   FP::_threadPool = 0; FP::_threadPoolLock = 0;
   if (condOpsAfterDestroy()) r.probes["cond_op_after_destroy"] += condOpsAfterDestroy();
   if (r.budget_exhausted && !r.violated) {
-    // fair quiet tail exhausted with unfinished work
+    // The fair, fault-free tail was exhausted with unfinished work.  While some task still sleeps towards a deadline the run is merely slow
+    // (idle workers may busy-wait, see DESIGN.md O3, and simulated time then advances slowly): no verdict.  Otherwise nothing but the passage of
+    // steps can change the state any more, every started function has long returned, and a client still inside start/join/convert/~Future is stuck.
     r.probes["tail_budget_exhausted"]++;
+    bool sleeper = false; std::string who;
+    for (int t = 1; t <= numTasks(); ++t) { if (taskFinished(t)) continue; if (isBlocked(t) && blockedDeadline(t) >= 0) sleeper = true; const char* n = taskNote(t); if (n[0] && (strstr(n, ":start") || strstr(n, ":join") || strstr(n, ":convert") || strstr(n, "~Future") || strstr(n, ":recreate"))) { who += n; who += isBlocked(t) ? " (blocked); " : " (running); "; } }
+    if (getenv("SIM_DEBUG")) { fprintf(stderr, "TAILEXH seed=%llu steps=%llu phase=%d\n", (unsigned long long)s.seed, (unsigned long long)r.steps, C.phase); for (int t = 1; t <= numTasks(); ++t) fprintf(stderr, "  task %d %s finished=%d blocked=%d what=%s note=%s\n", t, taskName(t), (int)taskFinished(t), (int)isBlocked(t), blockedWhat(t), taskNote(t)); }
+    if (C.phase == 0 && !sleeper && !who.empty()) { r.violated = true; r.cls = "C10/no_progress"; r.detail = "the step budget of the fair fault-free tail ran out, no task waits for a deadline, every started function has returned, and still unfinished: " + who; }
+    else r.probes["slow_run_no_verdict"]++;
   }
   r.probes[simdrv::knob(s, "pool_mode", 0) ? "pool_precreated" : "pool_lazy"]++;
+  if (C.lockWaiters >= 2) r.probes["pool_creation_lock_contended_by_3"]++; else if (C.lockWaiters == 1) r.probes["pool_creation_lock_contended"]++;
   return r;
 }
 
